@@ -120,32 +120,18 @@ theorem safeByte_safeChar : ∀ n, n < 256 → lingoSafeByte (UInt8.ofNat n) = t
 
 theorem safeChars_of_LingoSafe (bs : Bytes) (hb : LingoSafe bs) (s : Str) (hd : decodeText .macRoman bs = .ok s) :
     ∀ c ∈ s, safeChar c = true := by
-  revert s
-  induction bs with
-  | nil => intro s hd; simp [decodeText, pure, Except.pure] at hd; subst hd; simp
-  | cons b bs ih =>
-    intro s hd
-    simp only [decodeText, List.mapM_cons, bind, Except.bind] at hd ih
-    have hb0 : lingoSafeByte b = true := hb b (by simp)
-    have hbs : LingoSafe bs := fun x hx => hb x (by simp [hx])
-    have hsb := safeByte_safeChar b.toNat (UInt8.toNat_lt b) (by simpa using hb0)
-    simp only [UInt8.ofNat_toNat] at hsb
-    cases hdb : decodeByte .macRoman b with
-    | none => rw [hdb] at hd; simp at hd
-    | some ch =>
-      rw [hdb] at hd hsb
-      simp only at hd hsb
-      generalize hr : List.mapM (fun b => match decodeByte Codec.macRoman b with | some ch => Except.ok ch | none => Except.error Err.unicode) bs = r at hd
-      cases r with
-      | error e => simp at hd
-      | ok r =>
-        simp only [pure, Except.pure, Except.ok.injEq] at hd
-        subst hd
-        intro c hc
-        simp only [List.mem_cons] at hc
-        rcases hc with rfl | hc
-        · exact hsb
-        · exact ih hbs r hr c hc
+  simp only [decodeText] at hd
+  refine mapM_all_mem (P := fun c => safeChar c = true) bs s ?_ hd
+  intro b hbm c hc
+  have hb0 : lingoSafeByte b = true := hb b hbm
+  have hsb := safeByte_safeChar b.toNat (UInt8.toNat_lt b) (by simpa using hb0)
+  simp only [UInt8.ofNat_toNat] at hsb
+  split at hc
+  · rename_i ch hdb
+    cases hc
+    rw [hdb] at hsb
+    exact hsb
+  · cases hc
 
 /-- C11 for strings on the decidable domain `LingoSafe` (printable ASCII other than the backslash, BACKSPACE, ENTER, RETURN,
     TAB — the complement of findings F15–F17), for every length: BOTH literals evaluate to the string. -/
@@ -221,6 +207,27 @@ theorem C11_strings_full_fails_F16 : ¬ StringOk [0x8E] := by
   have := (h _ hd).1
   rw [C11_witness_F16] at this
   exact absurd this (by decide)
+
+/-- F17: a literal backslash followed by `t` is taken for the TAB escape: `x\ty` is written `"x\" & TAB & "y"` -/
+theorem C11_witness_F17 :
+    evalLingoLit (lingoLit (.s (escapeString ['x', '\\', 't', 'y']))) = some ['x', '\\', '\t', 'y'] := by
+  have he : escapeString ['x', '\\', 't', 'y'] = ['"', 'x', '\\', '\\', 't', 'y', '"'] := by decide
+  have hl : predefinedConstants.lookup ['"', 'x', '\\', '\\', 't', 'y', '"'] = none := by decide
+  have hr : replaceCharsWithLingoConstants ['"', 'x', '\\', '\\', 't', 'y', '"'] = S "\"x\\\" & TAB & \"y\"" := by
+    unfold replaceCharsWithLingoConstants
+    rw [replacementConstants_value]
+    simp only [List.foldl_cons, List.foldl_nil]
+    rw [replLoop_none (S "QUOTE") (S "\"") _ 1 (by decide), replLoop_none (S "BACKSPACE") (S "\\x08") _ 1 (by decide),
+      replLoop_none (S "ENTER") (S "\\x03") _ 1 (by decide), replLoop_none (S "RETURN") (S "\\r") _ 1 (by decide)]
+    have hp : pyFind ['"', 'x', '\\', '\\', 't', 'y', '"'] (S "\\t") 1 (['"', 'x', '\\', '\\', 't', 'y', '"'].length - 1) = 3 := by decide
+    rw [hp, replLoop]
+    have hstep : replStep (S "TAB") (S "\\t") ['"', 'x', '\\', '\\', 't', 'y', '"'] 3 = (S "\"x\\\" & TAB & \"y\"", 14) := by decide
+    simp only [show ((3 : Int) > 0) from by decide, if_true, show (3 : Int).toNat = 3 from rfl, hstep]
+    rw [dif_pos (by decide)]
+    exact replLoop_none (S "TAB") (S "\\t") _ 14 (by decide)
+  rw [lingoLit, he]
+  simp only [constLingo, hl, hr, Name.str]
+  decide
 
 theorem C11_strings_full_false : ¬ C11_strings_full := fun h => C11_strings_full_fails_F15 (h _)
 
